@@ -1,14 +1,18 @@
 (* Proofs/FormatFragmentProofs.v — the end-of-file theorem without a hypothesis about the parse, on the fragment of Model/Fragment.v.
 
-   fragment_eof_lines_ok: if the lexer's tokens of an input have the raw kinds `render_prog ss` of a fragment program (whatever their
-   texts and blanks), the lines the wrapper gets are exactly `expected_prog ss` (no directive: the ConditionalDirectiveConsolidator
-   is the identity; first real token `begin`: DeindentPackageDirectives is the identity; no comment, no asm line: nothing is ignored,
+   fragment_eof_lines_ok: if the lexer's tokens of an input have the raw kinds `render_prog ss` of a well-formed (`wf ss`) fragment
+   program (whatever their texts and blanks; the parser re-types some of them: the tokens handed on are `map fin (render_prog ss)`), the
+   lines the wrapper gets are exactly `expected_prog ss` (no directive: the ConditionalDirectiveConsolidator is the identity; no
+   `package` keyword: DeindentPackageDirectives is the identity; no comment, no asm line: nothing is ignored,
    nothing is voided), and they satisfy FormatEofProofs.eof_lines_ok.
+   The argument is made once for any token list of the fragment's kinds whose parse is known (Section Frag) and instantiated for a
+   program `begin stmts end.` (render_prog) and for a unit with var/const sections in front of it (render_unit: fragment_unit_eof_lines_ok,
+   format_fragment_unit_ends_with_one_newline, format_fragment_unit_total).
    format_fragment_ends_with_one_newline: hence format_model's output on such an input is the text of the other tokens followed by
    exactly one configured line ending — unconditionally on the fragment (FragmentProofs.fragment_parse_file gives the parse). *)
 From Coq Require Import Lia Sorted.
 From PasfmtVerif Require Import Model.Format Model.Fragment Model.Canon Proofs.FormatProofs Proofs.FormatTotalProofs Proofs.FormatIgnoredProofs
-  Proofs.FormatLayoutProofs Proofs.FormatEofProofs Proofs.FormatRelayoutProofs Proofs.FragmentProofs Proofs.ParserKernelProofs Proofs.ParserGrammarProofs
+  Proofs.FormatLayoutProofs Proofs.FormatEofProofs Proofs.FormatRelayoutProofs Proofs.FragmentProofs Proofs.FragmentUnitProofs Proofs.ParserKernelProofs Proofs.ParserGrammarProofs
   Proofs.ParserGrammarWsnlProofs Proofs.GenericsProofs Proofs.LineConsolidatorsProofs Proofs.ToggleProofs Proofs.WrapDepthProofs.
 Local Open Scope nat_scope.
 
@@ -17,29 +21,30 @@ Local Open Scope nat_scope.
 Lemma plain_not_asm t : plain t -> not_asm t.
 Proof. unfold plain, not_asm. destruct t; try tauto; match goal with k : KeywordKind |- _ => destruct k; tauto end. Qed.
 
-Lemma render_prog_no_asm ss : no_asm (map (fun x => x) (render_prog ss)).
-Proof. rewrite map_id. eapply Forall_impl; [|apply render_prog_plain]. apply plain_not_asm. Qed.
+Lemma plain_no_asm T : Forall plain T -> no_asm T.
+Proof. intros H. eapply Forall_impl; [|exact H]. apply plain_not_asm. Qed.
 
-Definition tt_plain (t : TokenType) : Prop := is_comment t = false /\ is_cond_directive t = false.
+Definition tt_plain (t : TokenType) : Prop := is_comment t = false /\ is_cond_directive t = false /\ t <> TT_Keyword KK_Package.
 
 Lemma plain_tt t : plain t -> tt_plain (tt_of_raw t).
 Proof.
-  unfold plain, tt_plain. destruct t; cbn; try tauto; try (intros _; split; reflexivity);
-    repeat match goal with k : KeywordKind |- _ => destruct k | k : OperatorKind |- _ => destruct k end; cbn; try tauto; intros _; split; reflexivity.
+  unfold plain, tt_plain. destruct t; cbn; try tauto; try (intros _; repeat split; (reflexivity || discriminate));
+    repeat match goal with k : KeywordKind |- _ => destruct k | k : OperatorKind |- _ => destruct k end; cbn; try tauto; intros _; repeat split; (reflexivity || discriminate).
 Qed.
 
 Lemma pexpected_no_asm_line : forall ss par d k li, Forall (fun l => ll_type l <> LLT_AsmInstruction) (pexpected par d k li ss).
 Proof.
-  apply (stmts_mut (fun ss => forall par d k li, Forall (fun l => ll_type l <> LLT_AsmInstruction) (pexpected par d k li ss))
-                   (fun c => forall p k li semi, Forall (fun l => ll_type l <> LLT_AsmInstruction) (pexpected_body p k li semi c))
+  apply (stmts_mut (fun c => forall par d k li sm, Forall (fun l => ll_type l <> LLT_AsmInstruction) (sexpected par d k li sm c))
+                   (fun ss => forall par d k li, Forall (fun l => ll_type l <> LLT_AsmInstruction) (pexpected par d k li ss))
                    (fun a => forall par d k li pend, (forall i, Forall (fun l => ll_type l <> LLT_AsmInstruction) (pend i)) ->
                              Forall (fun l => ll_type l <> LLT_AsmInstruction) (arms_pre par d k li a pend)
-                             /\ forall i, Forall (fun l => ll_type l <> LLT_AsmInstruction) (arms_pend k li a pend i)));
-    cbn [pexpected pexpected_body arms_pre arms_pend]; cbv zeta; intros; rewrite ?arms_lines_eq.
+                             /\ forall i, Forall (fun l => ll_type l <> LLT_AsmInstruction) (arms_pend k li a pend i))
+                   (fun h => forall par d k li, Forall (fun l => ll_type l <> LLT_AsmInstruction) (hexpected par d k li h)));
+    cbn [sexpected pexpected arms_pre arms_pend hexpected]; cbv zeta; intros; rewrite ?arms_lines_eq.
   all: try match goal with IHa : forall par d k li pend, _ -> _ /\ _ |- Forall _ (_ :: arms_pre ?par ?d ?k ?li ?a ?pend ++ _) =>
              destruct (IHa par d k li pend (fun _ => Forall_nil _)) as [A1 A2] end.
   all: try match goal with IHa : forall par d k li pend, _ -> _ /\ _, Hp : forall i, Forall _ (?pend i) |- _ /\ _ =>
-             split; [apply Forall_cons; [discriminate|]; apply Forall_app; split; [apply Hp|]; apply IHa; intros; auto | apply IHa; intros; auto] end.
+             split; [apply Forall_cons; [discriminate|]; apply Forall_app; split; [apply Hp|]; apply IHa; intros | apply IHa; intros] end.
   all: try (split; [apply Forall_nil|assumption]).
   all: repeat (first [ apply Forall_nil | (apply Forall_cons; [discriminate|]) | (apply Forall_app; split) | solve [auto] ]).
 Qed.
@@ -57,77 +62,96 @@ Proof.
   induction pl as [|l r IH]; [reflexivity|]. cbn [filter]. unfold nonempty_line at 1. destruct (ll_toks l) eqn:E; cbn [map concat]; rewrite ?E, IH; reflexivity.
 Qed.
 
-Lemma expected_prog_nodup ss : NoDup (concat (map ll_toks (expected_prog ss))).
+Lemma expected_prog_nodup ss : wf ss = true -> NoDup (concat (map ll_toks (expected_prog ss))).
 Proof.
+  intros Hwf.
   unfold expected_prog. rewrite finalize_eq, map_map.
   rewrite (map_ext (fun l => ll_toks (remap (pexpected_prog ss) l)) ll_toks) by (intros l; apply remap_toks).
   rewrite concat_filter_nonempty.
-  destruct (fragment_parse_pass ss) as (_ & _ & _ & el & Hel & Hpl).
+  destruct (fragment_parse_pass ss Hwf) as (_ & _ & _ & el & Hel & Hpl).
   pose proof (parse_pass_lines_wf (seq 0 (length (render_prog ss))) [] (render_prog ss) [] (increasing_seq 0 _)) as (_ & Hnd & _).
   rewrite Hpl, map_app, concat_app in Hnd. cbn [map concat] in Hnd. rewrite Hel, !app_nil_r in Hnd. exact Hnd.
 Qed.
 
-(* ------------------------------------------------------------------ *)
-Section Frag.
-Variable ss : stmts.
-Variable segs : list seg.
-Hypothesis Hty : map seg_ty segs = render_prog ss.
-
-Lemma frag_parse : fm_parse segs = parse_file_model (render_prog ss) [].
+(* the same for a unit: sections, then the main block *)
+Lemma decl_lines_no_asm ds : forall k, Forall (fun l => ll_type l <> LLT_AsmInstruction) (decl_lines k ds).
 Proof.
-  unfold fm_parse. rewrite Hty. apply parse_file_model_wsnl_irrelevant.
-  pose proof (render_prog_no_asm ss) as H. rewrite map_id in H. exact H.
+  assert (Mb : forall j k, Forall (fun l => ll_type l <> LLT_AsmInstruction) (member_lines k j)).
+  { induction j as [|j IH]; intros k; cbn [member_lines]; constructor; [discriminate|apply IH]. }
+  induction ds as [|dc r IH]; intros k; cbn [decl_lines]; [constructor|]. constructor; [discriminate|]. apply Forall_app. split; [apply Mb|apply IH].
 Qed.
 
-Lemma frag_len : length segs = S (S (S (S (length (render ss))))).
-Proof. rewrite <- (map_length seg_ty), Hty. apply render_prog_length. Qed.
-
-Lemma frag_toks0_tys : map t_ty (fm_toks0 segs) = map tt_of_raw (render_prog ss).
+Lemma expected_unit_no_asm_line ds ss : Forall (fun l => ll_type l <> LLT_AsmInstruction) (expected_unit ds ss).
 Proof.
-  unfold fm_toks0, tokens_of. rewrite frag_parse. destruct (fragment_parse_file ss) as (_ & _ & ->).
-  rewrite <- Hty. clear. induction segs as [|sg r IH]; [reflexivity|]. cbn [map combine fst snd]. f_equal. exact IH.
+  unfold expected_unit. rewrite finalize_eq. apply Forall_map. apply Forall_forall. intros l Hin. apply filter_In in Hin. destruct Hin as [Hin _].
+  rewrite remap_type. revert l Hin. apply Forall_forall. unfold pexpected_unit, main_lines. cbv zeta. apply Forall_app. split; [apply decl_lines_no_asm|].
+  constructor; [discriminate|]. apply Forall_app. split; [apply pexpected_no_asm_line|]. repeat (constructor; [discriminate|]). constructor.
+Qed.
+
+Lemma expected_unit_nodup ds ss : wf ss = true -> NoDup (concat (map ll_toks (expected_unit ds ss))).
+Proof.
+  intros Hwf. unfold expected_unit. rewrite finalize_eq, map_map.
+  rewrite (map_ext (fun l => ll_toks (remap (pexpected_unit ds ss) l)) ll_toks) by (intros l; apply remap_toks).
+  rewrite concat_filter_nonempty.
+  destruct (fragment_unit_parse_pass ds ss Hwf) as (_ & _ & _ & el & Hel & Hpl).
+  pose proof (parse_pass_lines_wf (seq 0 (length (render_unit ds ss))) [] (render_unit ds ss) [] (increasing_seq 0 _)) as (_ & Hnd & _).
+  rewrite Hpl, map_app, concat_app in Hnd. cbn [map concat] in Hnd. rewrite Hel, !app_nil_r in Hnd. exact Hnd.
+Qed.
+
+(* ------------------------------------------------------------------ *)
+(* the argument, for any token list T of plain kinds whose parse is known: lines E, the last one the Eof line [e] *)
+Section Frag.
+Variable T : list RawTokenType.
+Variable E : list lline.
+Variable e : nat.
+Variable segs : list seg.
+Hypothesis HT : Forall plain T.
+Hypothesis Hparse : r_err (parse_file_model T []) = None /\ r_lines (parse_file_model T []) = E /\ r_toks (parse_file_model T []) = map fin T.
+Hypothesis HEasm : Forall (fun l => ll_type l <> LLT_AsmInstruction) E.
+Hypothesis HEnd : NoDup (concat (map ll_toks E)).
+Hypothesis HEeof : exists pre, E = pre ++ [mkLine LLT_Eof 0%N None [e]].
+Hypothesis HTlen : length T = S e.
+Hypothesis HEpar : parents_ok E = true.
+Hypothesis Hty : map seg_ty segs = T.
+
+Lemma frag_parse : fm_parse segs = parse_file_model T [].
+Proof. unfold fm_parse. rewrite Hty. apply parse_file_model_wsnl_irrelevant, plain_no_asm, HT. Qed.
+
+Lemma frag_len : length segs = S e.
+Proof. rewrite <- (map_length seg_ty), Hty. exact HTlen. Qed.
+
+Lemma frag_toks0_tys : map t_ty (fm_toks0 segs) = map tt_of_raw (map fin T).
+Proof.
+  unfold fm_toks0, tokens_of. rewrite frag_parse. destruct Hparse as (_ & _ & ->).
+  rewrite <- Hty. clear. rewrite map_map. induction segs as [|sg r IH]; [reflexivity|]. cbn [map combine fst snd]. f_equal. exact IH.
 Qed.
 
 Lemma frag_tys_plain : Forall tt_plain (fm_tys segs).
 Proof.
   unfold fm_tys, fm_toks, Format.retype.
   assert (Hsrc : Forall tt_plain (map t_ty (fm_toks0 segs))).
-  { rewrite frag_toks0_tys. apply Forall_map. eapply Forall_impl; [|apply render_prog_plain]. apply plain_tt. }
+  { rewrite frag_toks0_tys. apply Forall_map, Forall_map. eapply Forall_impl; [|exact HT]. intros t Ht. apply plain_tt, fin_plain, Ht. }
   pose proof (generics_chev (map t_ty (fm_toks0 segs))) as Hc. pose proof (generics_length (map t_ty (fm_toks0 segs))) as Hl.
   set (g := generics_consolidate (map t_ty (fm_toks0 segs))) in *.
   assert (Hg : Forall tt_plain g).
   { clear Hl. induction Hc as [|a b l l' Hab _ IH]; [constructor|]. inversion Hsrc as [|? ? Ha Hr]; subst. constructor; [|apply IH, Hr].
-    destruct Hab as [->|[(k & -> & ->)|(k & -> & ->)]]; [exact Ha|split; reflexivity|split; reflexivity]. }
+    destruct Hab as [->|[(k & -> & ->)|(k & -> & ->)]]; [exact Ha|repeat split; (reflexivity || discriminate)|repeat split; (reflexivity || discriminate)]. }
   rewrite map_length in Hl. revert Hl Hg. generalize (fm_toks0 segs) g. clear.
   induction l as [|x l IH]; intros [|y g] Hl Hg; cbn in *; try discriminate; [constructor|]. inversion Hg; subst. constructor; [assumption|apply IH; [congruence|assumption]].
 Qed.
 
 Lemma frag_no_cond : existsb is_cond_directive (fm_tys segs) = false.
 Proof.
-  pose proof frag_tys_plain as H. induction H as [|t r (_ & Hc) _ IH]; [reflexivity|]. cbn [existsb]. rewrite Hc, IH. reflexivity.
+  pose proof frag_tys_plain as H. induction H as [|t r (_ & Hc & _) _ IH]; [reflexivity|]. cbn [existsb]. rewrite Hc, IH. reflexivity.
 Qed.
 
-Lemma frag_head : exists r, fm_tys segs = TT_Keyword KK_Begin :: r.
-Proof.
-  unfold fm_tys, fm_toks, Format.retype.
-  pose proof (generics_length (map t_ty (fm_toks0 segs))) as Hl. rewrite map_length in Hl.
-  assert (H0 : nth_error (map t_ty (fm_toks0 segs)) 0 = Some (TT_Keyword KK_Begin)) by (rewrite frag_toks0_tys; reflexivity).
-  destruct (generics_consolidate (map t_ty (fm_toks0 segs))) as [|g0 gr] eqn:Eg.
-  { destruct (fm_toks0 segs); [discriminate H0|discriminate Hl]. }
-  assert (Hg0 : g0 = TT_Keyword KK_Begin).
-  { destruct (TokenType_eqb (TT_Keyword KK_Begin) g0) eqn:E; [apply TokenType_eqb_eq in E; congruence|].
-    assert (Hne : TT_Keyword KK_Begin <> g0) by (intros Heq; rewrite <- Heq, TokenType_eqb_refl in E; discriminate).
-    assert (Hn : nth_error (generics_consolidate (map t_ty (fm_toks0 segs))) 0 = Some g0) by (rewrite Eg; reflexivity).
-    destruct (generics_only_chevrons _ 0 _ g0 H0 Hn Hne) as [(k & Hk & _)|(k & Hk & _)]; discriminate Hk. }
-  subst g0. destruct (fm_toks0 segs) as [|t0 tr]; [discriminate H0|]. cbn [combine map fst snd set_ty t_ty]. eexists. reflexivity.
-Qed.
-
-Lemma frag_lines0 : fm_lines0 segs = expected_prog ss.
+Lemma frag_lines0 : fm_lines0 segs = E.
 Proof.
   unfold fm_lines0, fm_lines_cd, conddir_consolidate_std. rewrite (conddir_gen_nodir_id _ _ _ frag_no_cond).
-  rewrite frag_parse. destruct (fragment_parse_file ss) as (_ & -> & _).
+  rewrite frag_parse. destruct Hparse as (_ & -> & _).
   apply (proj2 (proj2 (proj2 (proj2 (proj2 (deindent_only_levels _ _)))))).
-  destruct frag_head as (r & ->). unfold first_real_ty. cbn. discriminate.
+  unfold first_real_ty. intros Hf. apply find_some in Hf. destruct Hf as [Hin _].
+  pose proof frag_tys_plain as Hp. rewrite Forall_forall in Hp. exact (proj2 (proj2 (Hp _ Hin)) eq_refl).
 Qed.
 
 (* nothing is ignored *)
@@ -152,8 +176,8 @@ Qed.
 Lemma frag_marks : forall m, In m (fm_marks segs) -> m = false.
 Proof.
   unfold fm_marks. rewrite frag_lines0.
-  assert (Ha : forall m, In m (asm_marks (fm_toks segs) (map line_view (expected_prog ss))) -> m = false).
-  { apply asm_marks_none, asm_base_no_asm_line. apply Forall_map. eapply Forall_impl; [|apply expected_prog_no_asm_line]. intros l H. exact H. }
+  assert (Ha : forall m, In m (asm_marks (fm_toks segs) (map line_view E)) -> m = false).
+  { apply asm_marks_none, asm_base_no_asm_line. apply Forall_map. eapply Forall_impl; [|exact HEasm]. intros l H. exact H. }
   pose proof (toggle_marks_no_comment _ frag_toks_not_comment) as Ht.
   intros m Hm. unfold or_marks in Hm. apply in_map_iff in Hm. destruct Hm as ([x y] & <- & Hxy). cbn [fst snd].
   pose proof (in_combine_l _ _ _ _ Hxy) as Hx. pose proof (in_combine_r _ _ _ _ Hxy) as Hy. rewrite (Ha y Hy), orb_false_r.
@@ -162,22 +186,21 @@ Proof.
   apply in_map_iff in Ha0. destruct Ha0 as (t & <- & _). reflexivity.
 Qed.
 
-Lemma frag_lines : fm_lines segs = expected_prog ss.
+Lemma frag_lines : fm_lines segs = E.
 Proof.
-  unfold fm_lines, void_llines. destruct (existsb (fun b => b) (fm_marks segs)) eqn:E; [|apply frag_lines0].
-  apply existsb_exists in E. destruct E as (m & Hm & ->). discriminate (frag_marks true Hm).
+  unfold fm_lines, void_llines. destruct (existsb (fun b => b) (fm_marks segs)) eqn:Ex; [|apply frag_lines0].
+  apply existsb_exists in Ex. destruct Ex as (m & Hm & ->). discriminate (frag_marks true Hm).
 Qed.
 
 (* the hypothesis of the end-of-file theorem *)
-Theorem fragment_eof_lines_ok : eof_lines_ok segs.
+Lemma frag_eof_lines_ok : eof_lines_ok segs.
 Proof.
-  unfold eof_lines_ok. rewrite frag_lines, frag_len. replace (S (S (S (S (length (render ss))))) - 1) with (S (S (S (length (render ss))))) by lia.
-  set (e := S (S (S (length (render ss))))).
-  destruct (fragment_single_eof_line ss) as (pre & Hl & Hpre & _ & _). destruct (fragment_parse_file ss) as (_ & Hr & _). rewrite Hr in Hl. fold e in Hl.
-  pose proof (expected_prog_nodup ss) as Hnd. rewrite Hl, map_app, concat_app in Hnd. cbn [map concat ll_toks] in Hnd. rewrite app_nil_r in Hnd.
+  unfold eof_lines_ok. rewrite frag_lines, frag_len. replace (S e - 1) with e by lia.
+  destruct HEeof as (pre & Hl).
+  pose proof HEnd as Hnd. rewrite Hl, map_app, concat_app in Hnd. cbn [map concat ll_toks] in Hnd. rewrite app_nil_r in Hnd.
   assert (Hnotpre : forall l, In l pre -> ~ In e (ll_toks l)).
   { intros l Hin He. apply NoDup_remove_2 in Hnd. rewrite app_nil_r in Hnd. apply Hnd. apply in_concat. exists (ll_toks l). split; [apply in_map, Hin|exact He]. }
-  pose proof (fragment_parents_ok ss) as Hpo. rewrite Hr, Hl in Hpo.
+  pose proof HEpar as Hpo. rewrite Hl in Hpo.
   split; [|split].
   - rewrite Hl. intros k ln Hk He.
     destruct (PeanoNat.Nat.lt_ge_cases k (length pre)) as [Hlt|Hge].
@@ -189,34 +212,81 @@ Proof.
       pose proof (parents_ok_from_spec _ _ 0 Hpo j l' (length pre) pt Hj Hp) as Hlt. cbn [Nat.add] in Hlt.
       assert (Hjl : j < length (pre ++ [mkLine LLT_Eof 0%N None [e]])) by (apply nth_error_Some; congruence). rewrite app_length in Hjl. cbn [length] in Hjl. lia.
   - rewrite Hl, existsb_app. cbn. apply orb_true_r.
-  - assert (Hlen : e < length (fm_marks segs)) by (rewrite fm_marks_length, frag_len; unfold e; lia).
-    destruct (nth_error (fm_marks segs) e) as [m|] eqn:E; [|apply nth_error_None in E; lia].
-    f_equal. exact (frag_marks m (nth_error_In _ _ E)).
+  - assert (Hlen : e < length (fm_marks segs)) by (rewrite fm_marks_length, frag_len; lia).
+    destruct (nth_error (fm_marks segs) e) as [m|] eqn:Em; [|apply nth_error_None in Em; lia].
+    f_equal. exact (frag_marks m (nth_error_In _ _ Em)).
 Qed.
 End Frag.
 
+(* the instances: a program `begin stmts end.`, and a unit `var/const sections, begin stmts end.` *)
+Theorem fragment_eof_lines_ok ss segs : wf ss = true -> map seg_ty segs = render_prog ss -> eof_lines_ok segs.
+Proof.
+  intros Hwf Hty. destruct (fragment_single_eof_line ss Hwf) as (pre & Hl & _ & _ & Hlen).
+  pose proof (fragment_parse_file ss Hwf) as Hp. cbv zeta in Hp. rewrite (proj1 (proj2 Hp)) in Hl.
+  apply (frag_eof_lines_ok (render_prog ss) (expected_prog ss) (S (S (S (length (render ss))))) segs (render_prog_plain ss) Hp
+           (expected_prog_no_asm_line ss) (expected_prog_nodup ss Hwf) (ex_intro _ pre Hl) Hlen); [|exact Hty].
+  rewrite <- (proj1 (proj2 Hp)). apply fragment_parents_ok, Hwf.
+Qed.
+
+Theorem fragment_unit_eof_lines_ok ds ss segs : wf ss = true -> map seg_ty segs = render_unit ds ss -> eof_lines_ok segs.
+Proof.
+  intros Hwf Hty. destruct (fragment_unit_single_eof_line ds ss Hwf) as (pre & Hl & _ & _ & Hlen).
+  pose proof (fragment_unit_parse_file ds ss Hwf) as Hp. cbv zeta in Hp. rewrite (proj1 (proj2 Hp)) in Hl.
+  apply (frag_eof_lines_ok (render_unit ds ss) (expected_unit ds ss) _ segs (render_unit_plain ds ss) Hp
+           (expected_unit_no_asm_line ds ss) (expected_unit_nodup ds ss Hwf) (ex_intro _ pre Hl) Hlen); [|exact Hty].
+  rewrite <- (proj1 (proj2 Hp)). apply fragment_unit_parents_ok, Hwf.
+Qed.
+
 (* C14/C08 on the fragment: no hypothesis about the parse *)
 Theorem format_fragment_ends_with_one_newline alnum cfg s out segs ss :
-  format_model alnum cfg s = inl out -> lex_segments s = Some segs -> map seg_ty segs = render_prog ss ->
+  wf ss = true -> format_model alnum cfg s = inl out -> lex_segments s = Some segs -> map seg_ty segs = render_prog ss ->
   out = recon (cfg_rs cfg) false (removelast (fm_final alnum cfg segs)) ++ rs_newline (cfg_rs cfg).
-Proof. intros H Hl Hty. exact (format_ends_with_one_newline alnum cfg s out segs H Hl (fragment_eof_lines_ok ss segs Hty)). Qed.
+Proof. intros Hwf H Hl Hty. exact (format_ends_with_one_newline alnum cfg s out segs H Hl (fragment_eof_lines_ok ss segs Hwf Hty)). Qed.
+
+Theorem format_fragment_unit_ends_with_one_newline alnum cfg s out segs ds ss :
+  wf ss = true -> format_model alnum cfg s = inl out -> lex_segments s = Some segs -> map seg_ty segs = render_unit ds ss ->
+  out = recon (cfg_rs cfg) false (removelast (fm_final alnum cfg segs)) ++ rs_newline (cfg_rs cfg).
+Proof. intros Hwf H Hl Hty. exact (format_ends_with_one_newline alnum cfg s out segs H Hl (fragment_unit_eof_lines_ok ds ss segs Hwf Hty)). Qed.
 
 (* ... and on the fragment the composed model never fails: the parser model's result is known *)
 Theorem format_fragment_total alnum cfg s segs ss :
-  lex_segments s = Some segs -> map seg_ty segs = render_prog ss -> format_model alnum cfg s = inl (fm_out alnum cfg segs).
+  wf ss = true -> lex_segments s = Some segs -> map seg_ty segs = render_prog ss -> format_model alnum cfg s = inl (fm_out alnum cfg segs).
 Proof.
-  intros Hl Hty. apply (format_total_if_parsed alnum cfg s segs Hl). unfold fm_parse_ok. rewrite (frag_parse ss segs Hty).
-  exact (proj1 (fragment_parse_file ss)).
+  intros Hwf Hl Hty. apply (format_total_if_parsed alnum cfg s segs Hl). unfold fm_parse_ok.
+  rewrite (frag_parse (render_prog ss) segs (render_prog_plain ss) Hty). exact (proj1 (fragment_parse_file ss Hwf)).
+Qed.
+
+Theorem format_fragment_unit_total alnum cfg s segs ds ss :
+  wf ss = true -> lex_segments s = Some segs -> map seg_ty segs = render_unit ds ss -> format_model alnum cfg s = inl (fm_out alnum cfg segs).
+Proof.
+  intros Hwf Hl Hty. apply (format_total_if_parsed alnum cfg s segs Hl). unfold fm_parse_ok.
+  rewrite (frag_parse (render_unit ds ss) segs (render_unit_plain ds ss) Hty). exact (proj1 (fragment_unit_parse_file ds ss Hwf)).
 Qed.
 
 (* non-vacuity: "begin if a then b:=c; x; end." lexes to a fragment program with a child line *)
 Example format_fragment_example :
   let s := [98;101;103;105;110; 32; 105;102; 32; 97; 32; 116;104;101;110; 32; 98; 58;61; 99; 59; 32; 120; 59; 32; 101;110;100; 46]%N in
   match lex_segments s with
-  | Some segs => map seg_ty segs = render_prog (SIf TAssign (SSimple SNil))
+  | Some segs => map seg_ty segs = render_prog (SCons (TIf TAssign) (SCons TSimple SNil)) /\ wf (SCons (TIf TAssign) (SCons TSimple SNil)) = true
   | None => False
   end.
-Proof. vm_compute. reflexivity. Qed.
+Proof. vm_compute. split; reflexivity. Qed.
+
+(* "var x: y; begin z; end." is a unit of the fragment: one var section with one member, then the main block *)
+Example format_fragment_unit_example :
+  let s := [118;97;114; 32; 120; 58; 32; 121; 59; 32; 98;101;103;105;110; 32; 122; 59; 32; 101;110;100; 46]%N in
+  match lex_segments s with
+  | Some segs => map seg_ty segs = render_unit [DVar 1] (SCons TSimple SNil)
+                 /\ format_model (fun _ => false) (mkCfg 120 false true false 2 2 false) s = inl (fm_out (fun _ => false) (mkCfg 120 false true false 2 2 false) segs)
+  | None => False
+  end.
+Proof.
+  intros s. destruct (lex_segments s) as [segs|] eqn:El; [|vm_compute in El; discriminate].
+  assert (Hty : map seg_ty segs = render_unit [DVar 1] (SCons TSimple SNil)) by (vm_compute in El; injection El as <-; reflexivity).
+  split; [exact Hty|]. exact (format_fragment_unit_total _ _ s segs [DVar 1] (SCons TSimple SNil) eq_refl El Hty).
+Qed.
 
 Print Assumptions fragment_eof_lines_ok.
 Print Assumptions format_fragment_ends_with_one_newline.
+Print Assumptions format_fragment_unit_ends_with_one_newline.
+Print Assumptions format_fragment_unit_total.
